@@ -13,6 +13,8 @@ PID = "C06"
 
 def classify(m, res):
     """classifier key for known_findings.json"""
+    if b"\0" in m and b"\r\r" not in m and b"\r." not in m:
+        return "remote:nul-byte"
     if b"\r." in m:
         return "remote:barecr-dot-unstuffed"
     if b"\r\r" in m:
@@ -30,6 +32,11 @@ def gen_cases(ck):
         for ch in (1, 2, 3):
             cases.append((m, ch))
     ck.count("chunked_len<=5", len(cases) - n0)
+    n0 = len(cases)
+    for m in exhaustive(6 if ck.thorough else 5, alpha=[13, 10, 46, 120, 0, 255]):
+        if 0 in m or 255 in m:
+            cases.append((m, 0))
+    ck.count("exhaustive_with_NUL_0xff", len(cases) - n0)
     sizes = [0, 1, 2, 50, 255, 256, 257, 1023, 1024, 1025, 2047, 2048, 2049, 5000]
     rnd = random_msgs(ck.rng, 3000 if ck.thorough else 600, sizes)
     for m in rnd:
